@@ -129,6 +129,17 @@ func newOmap(kt types.Type) *omap {
 }
 
 func goKey(k value) (value, bool) {
+	// (a NaN is equal to no key, itself included: never indexed)
+	switch f := k.(type) {
+	case float64:
+		if f != f {
+			return nil, false
+		}
+	case float32:
+		if f != f {
+			return nil, false
+		}
+	}
 	switch k := k.(type) {
 	case bool, int, int8, int16, int32, int64, uint, uint8, uint16, uint32, uint64, uintptr, float32, float64, string, *value, *channel:
 		return k, true
